@@ -89,7 +89,8 @@ def ctype_for(rng, kind, boundary='XbX'):
     if r < 0.5: return m
     if r < 0.65: return m + rng.choice(['; charset=utf-8', ';charset=UTF-8', ' ; q=1', '; boundary=x', '; charset=utf-8; boundary=x', '; a=1; b=2; c=3', ';a="x;y"'])
     if r < 0.8: return m + rng.choice(['x', 'ly', '-patch+json', '+xml', '/x', '2'])
-    if r < 0.9: return rng.choice(['application/octet-stream', 'text/html', 'application/x-www-form-urlencoded', 'application/json', 'text/plain', m.upper(), ' ' + m])
+    if r < 0.88: return rng.choice(['application/octet-stream', 'text/html', 'application/x-www-form-urlencoded', 'application/json', 'text/plain', ' ' + m])
+    if r < 0.95: return rng.choice([m.upper(), m.title(), m.upper() + '; charset=utf-8', m[0].upper() + m[1:]])          # the same media type in another letter case
     return None
 
 
@@ -287,7 +288,7 @@ def spec_expect(case):
             if it['decoded'] is None: return ('error',)
             items.append(it['decoded'])
         else:
-            carried = ct is not None and ct.split(';')[0].strip() == it['mime'] and ct.startswith(it['mime']) and it['payload'] is not None
+            carried = ct is not None and ct.split(';')[0].strip().lower() == it['mime'].lower() and ct.lower().startswith(it['mime'].lower()) and it['payload'] is not None          # type/subtype are case-insensitive
             if not carried:
                 if it['optional']: items.append(None)
                 else: return ('error',)
